@@ -158,8 +158,17 @@ impl Property for C04 {
         match case {
             Case::Hist(h) => {
                 let mut v = V { st, updates: 0, nontrivial: false, stop: false };
-                run_history(h, false, &mut v)?;
+                let out = run_history(h, false, &mut v)?;
                 let nt = v.nontrivial;
+                let stopped = v.stop;
+                // the same history without any observation in between, observed cold at the end
+                if !h.ops.is_empty() && out.aborted.is_none() && !stopped {
+                    if let Some((_, cold)) = crate::exec::run_blind(h, h.ops.len(), h.ops.len() % 2 == 0)? {
+                        st.evals(1);
+                        st.label("blind-run");
+                        cold_consistent(&cold, None).map_err(|m| format!("after {} unobserved calls: {m}", h.ops.len()))?;
+                    }
+                }
                 st.label("kind:history");
                 label_history(h, st);
                 if nt {
